@@ -54,6 +54,64 @@ class LP:
         return res
 
 
+def lp_of_pulp_model(model):
+    """A PuLP model as plain matrices (maximisation): dict(A, lo, hi, c, bounds)"""
+    vars_ = model.variables()
+    idx = {v.name: i for i, v in enumerate(vars_)}
+    rows, cols, vals, lo, hi = [], [], [], [], []
+    for ci, con in enumerate(model.constraints.values()):
+        for v, coef in con.items():
+            rows.append(ci)
+            cols.append(idx[v.name])
+            vals.append(coef)
+        rhs = -con.constant
+        if con.sense == 0:
+            lo.append(rhs)
+            hi.append(rhs)
+        elif con.sense == -1:
+            lo.append(-np.inf)
+            hi.append(rhs)
+        else:
+            lo.append(rhs)
+            hi.append(np.inf)
+    A = sp.csr_matrix((vals, (rows, cols)), shape=(len(lo), len(vars_)))
+    c = np.zeros(len(vars_))
+    for v, coef in model.objective.items():
+        c[idx[v.name]] = coef
+    sign = 1.0 if model.sense == -1 else -1.0      # pulp: LpMaximize == -1
+    bounds = [(v.lowBound, v.upBound) for v in vars_]
+    return {"A": A, "lo": np.array(lo, dtype=float), "hi": np.array(hi, dtype=float), "c": c * sign, "bounds": bounds}
+
+
+def solve_matrix_lp(m, relax=0.0):
+    """maximise c.x subject to lo <= A x <= hi and bounds, with HiGHS; returns (status, optimum).
+    relax > 0 widens every row by relax x max(1, |rhs|) and lower bounds by relax: the feasibility tolerance with which the
+    model's own solver accepts a programme that is infeasible only by solver noise (e.g. a pinned band around -1e-7)."""
+    A, lo, hi = m["A"], m["lo"].copy(), m["hi"].copy()
+    bounds = m["bounds"]
+    if relax:
+        lo = lo - relax * np.maximum(1.0, np.abs(np.where(np.isfinite(lo), lo, 0.0)))
+        hi = hi + relax * np.maximum(1.0, np.abs(np.where(np.isfinite(hi), hi, 0.0)))
+        bounds = [((b[0] - relax) if b[0] is not None else None, b[1]) for b in bounds]
+    eq = lo == hi
+    up = (~eq) & np.isfinite(hi)
+    dn = (~eq) & np.isfinite(lo)
+    blocks, rhs = [], []
+    if up.any():
+        blocks.append(A[up])
+        rhs.append(hi[up])
+    if dn.any():
+        blocks.append(-A[dn])
+        rhs.append(-lo[dn])
+    res = None
+    for method in ("highs", "highs-ds", "highs-ipm"):
+        res = linprog(-m["c"], A_ub=sp.vstack(blocks) if blocks else None, b_ub=np.concatenate(rhs) if rhs else None,
+                      A_eq=A[eq] if eq.any() else None, b_eq=lo[eq] if eq.any() else None, bounds=bounds, method=method)
+        if res.status in (0, 2, 3):
+            break
+    return res.status, (-res.fun if res.status == 0 else None)
+
+
 def _k(x):
     return np.asarray(x, dtype=float).ravel()
 
@@ -203,8 +261,12 @@ def build_reference(d, kind, pins=None):
     return lp, z
 
 
-def solve_reference(d, kind, pins=None):
+def solve_reference(d, kind, pins=None, relax=0.0):
     lp, z = build_reference(d, kind, pins)
+    if relax:
+        lo, hi = np.array(lp.lo, dtype=float), np.array(lp.hi, dtype=float)
+        lp.lo = list(lo - relax * np.maximum(1.0, np.abs(np.where(np.isfinite(lo), lo, 0.0))))
+        lp.hi = list(hi + relax * np.maximum(1.0, np.abs(np.where(np.isfinite(hi), hi, 0.0))))
     res = lp.solve(z)
     return (res.status, -res.fun if res.status == 0 else None)
 
@@ -287,7 +349,9 @@ def ledger(d, vals, kind):
             out.append(("seaweed_start", 0, "month 0: biomass %r (initial %r), area %r (initial %r), use %r" % (wet[0], s["S"], area[0], s["A0"], (h[0], f[0], b[0]))))
         for m in range(1, N):
             exp = wet[m - 1] * (1 + s["gr"][m]) - h[m] * s["g"] - f[m] - b[m] - (area[m] - area[m - 1]) * s["mind"] * s["loss"]
-            if abs(wet[m] - exp) > 1e-5 * max(1.0, abs(exp), abs(wet[m - 1] * (1 + s["gr"][m]))) + 1e-6:
+            # 1e-4 thousand tons absolute: the ledger row carries a coefficient of 240 (minimum density x harvest loss) on the
+            # used area, and CBC's 1e-7 row tolerance applies to the scaled row
+            if abs(wet[m] - exp) > 1e-5 * max(1.0, abs(exp), abs(wet[m - 1] * (1 + s["gr"][m]))) + 1e-4:
                 out.append(("seaweed_ledger", m, "biomass %r, growth-and-harvest ledger gives %r" % (wet[m], exp)))
                 break
         for m in range(N):
